@@ -434,6 +434,11 @@ def _sched_case(case):
     labs = [l for _, l in s0.labels]
     if "stmt" not in labs:
         raise HarnessError("harness seam missing: scheduling points seen in a solo run: %r" % labs)
+    # warm-up: one complete default schedule of ALL threads before the exploration, so that whatever the tree memoises per process (a
+    # lexer / parser pair cached per class or per flag combination makes the build points disappear from the second execution on) is in
+    # the same state for every explored schedule; process-level memoisation itself is judged by the operation histories (pristine solo
+    # references) and by the results of every explored schedule
+    _run_schedule(cfg, [], active)
     bound = case["bound"]
     prefix = case["prefix"]
     stack = [list(prefix)]
